@@ -37,26 +37,26 @@ Theorem C20_spec_state_normal_iff : forall n os,
 Proof. exact spec_state_normal_iff. Qed.
 Print Assumptions C20_spec_state_normal_iff.
 
-(* FULL STATEMENT with configuration updates between evaluations (does NOT hold, see _refuted):
-     forall evs, a_state (run evs) = spec_state N (rev (outcomes evs))
-   GUARDED: it holds whenever no update lies among the newest N history rows. *)
-Theorem C20_alert_state_window_guarded : forall d evs t m w i cd,
+(* FULL, all events: with configuration updates (which may change N) and silencing between the
+   evaluations, the state after an evaluation is still the specified function of the evaluation
+   outcomes alone, N taken from the configuration in force.  (Holds since the window check reads
+   evaluation rows only; before that repair only a guarded variant held, see the PRE-FIX theorem.) *)
+Theorem C20_alert_state_is_function_of_last_N_all_events : forall d evs t m w i cd,
   let a := fst (Alert.run d (evs ++ [Eval t m]) (new_alert w i cd)) in
-  let n := (a_window a / a_interval a)%N in
-  no_update_in_window n (rev (evs ++ [Eval t m])) = true ->
-  a_state a = spec_state n (rev (outcomes (evs ++ [Eval t m]))).
-Proof. exact alert_state_window_guarded. Qed.
-Print Assumptions C20_alert_state_window_guarded.
+  a_state a = spec_state (a_window a / a_interval a) (rev (outcomes (evs ++ [Eval t m]))).
+Proof. exact alert_state_is_function_of_last_N_all_events. Qed.
+Print Assumptions C20_alert_state_is_function_of_last_N_all_events.
 
-(* an alert update writes a history row with state Inactive which the window check counts as an
-   evaluation that did not hold: T T update T with N = 2 is Pending, not Firing *)
-Theorem C20_alert_state_update_refuted :
+(* ---- PRE-FIX documentation (about [run_prefix], the window check that read the newest N-1 rows
+   of any kind): an alert update writes a history row with state Inactive which that check counted
+   as an evaluation that did not hold: T T update T with N = 2 was Pending, not Firing *)
+Theorem C20_prefix_alert_state_update_refuted :
   exists w i cd evs,
-    let a := fst (Alert.run true evs (new_alert w i cd)) in
+    let a := run_prefix evs (new_alert w i cd) in
     (a_window a / a_interval a = w / i)%N /\
     a_state a <> spec_state (w / i) (rev (outcomes evs)).
-Proof. exact alert_state_update_refuted. Qed.
-Print Assumptions C20_alert_state_update_refuted.
+Proof. exact prefix_alert_state_update_refuted. Qed.
+Print Assumptions C20_prefix_alert_state_update_refuted.
 
 (* ================= notifications ================= *)
 
